@@ -268,6 +268,15 @@ def run(ck):
         ck.nontriv(("trace", k, burst, vs0, tuple(steps)))
     ck.count("trace_scripts", len(tscripts))
     ck.extra["disagreements"] = ndiff
+    # ---- the window in the scheduler itself: sendASDUInternal / sendWaitingASDUs / the release loop called directly on a real connection
+    #      (white-box `sch` scripts shared with C06 / C13): never more than k entries in the k-buffer, whatever mix of parked responses,
+    #      waiting events and partial acknowledgements; the ring-backed scheduler model must reproduce the occupancy after every call
+    from props import c06 as _c06, c13 as _c13
+    try:
+        _m = _c06.model()
+    except Exception:
+        _m = None
+    _c13.run_sched(ck, _c06.harness(), _m, core.Rng(ck.seed + 41), quick, sig="sched-window")
     # ---- client, trace level: the k configured when a connection is made is the one in force on it -- also when the application
     #      changed the APCI parameters after an earlier connection (real client thread, gated; public API only)
     from props import c03 as _c03
